@@ -3,7 +3,12 @@
  * Schedule points: the per-bin mutexes inside allocator_sba.c.  Parent = galloc (counting).
  */
 #include <stddef.h>
-#include "vsx.h"
+#ifdef VSX_FREE
+#    define GALLOC_PASSTHROUGH 1
+#    include "vsx_free.h"
+#else
+#    include "vsx.h"
+#endif
 #include "galloc.h"
 #include <aws/common/allocator.h>
 
